@@ -106,6 +106,10 @@ def case_liesel(case, res):
     B = Program(desc)
     B.build()
     B.model.auto_update = False
+    if case["idx"] % 2 == 1:
+        # the user has switched automatic updates off (the model itself is fully updated) before wrapping it
+        A.model.auto_update = False
+        res.ev("interface_built_from_model_with_auto_update_off")
     iface = gs.LieselInterface(A.model)
     jit_update = jax.jit(iface.update_state)
     vmap_update = jax.vmap(iface.update_state)
@@ -513,6 +517,9 @@ def case_realistic(case, res):
     vals0 = sm.initial_values(desc, rng)
     A = sm.build(desc, initial=vals0)
     B = sm.build(desc, initial=vals0)
+    if case["idx"] % 2 == 1:
+        A.model.auto_update = False
+        res.ev("interface_built_from_model_with_auto_update_off")
     iface = gs.LieselInterface(A.model)
     S0 = A.model.state
     user_before = state_bytes(S0)
